@@ -40,8 +40,10 @@ Active == call <= Len(Calls)
 Blank == [c \in Chains |-> [k \in 0..(NC - 1) |-> -1]]
 
 MinCollect == IF Variant = "nuts" THEN 1 ELSE 0
+\* the (n_collect, n_discard) pairs a call may use; replay generators override it with a few LARGE pairs
+CallChoices == (MinCollect..MaxCollect) \X (0..MaxDiscard)
 Init ==
-  /\ Calls \in [1..NCalls -> (MinCollect..MaxCollect) \X (0..MaxDiscard)]
+  /\ Calls \in [1..NCalls -> CallChoices]
   /\ call = 1
   /\ pc = [c \in Chains |-> "idle"] /\ i = [c \in Chains |-> 0]
   /\ steps = [c \in Chains |-> 0] /\ base = [c \in Chains |-> 0]
